@@ -347,6 +347,23 @@ var pureExternal = map[string]bool{
 	"(*strings.Builder).String": true, "(*bytes.Buffer).String": true, "(*bytes.Buffer).Bytes": true, "(*bytes.Buffer).Len": true,
 }
 
+// isPureExternal: listed, or a plain function (no receiver) of a package whose
+// functions only compute values from their arguments.
+func isPureExternal(name string) bool {
+	if pureExternal[name] {
+		return true
+	}
+	if strings.HasPrefix(name, "(") {
+		return name == "(*strings.Replacer).Replace"
+	}
+	for _, pk := range []string{"strings.", "strconv.", "unicode.", "unicode/utf8.", "path.", "math.", "errors."} {
+		if strings.HasPrefix(name, pk) {
+			return true
+		}
+	}
+	return false
+}
+
 // writes to a receiver that the caller created locally: pure as seen from outside
 var localWriterExternal = map[string]bool{
 	"fmt.Fprintf": true, "fmt.Fprint": true, "fmt.Fprintln": true,
@@ -396,7 +413,7 @@ func (a *orderAnalysis) isPure(f *ssa.Function) bool {
 		return false
 	}
 	if !a.p.IsModFn(f) {
-		return pureExternal[extName(f)]
+		return isPureExternal(extName(f))
 	}
 	switch a.pureMemo[f] {
 	case 1, 3:
@@ -490,7 +507,7 @@ func (a *orderAnalysis) pureCall(cc *ssa.CallCommon) bool {
 			return a.isPure(f)
 		}
 		n := extName(f)
-		if pureExternal[n] {
+		if isPureExternal(n) {
 			return true
 		}
 		if localWriterExternal[n] {
